@@ -20,7 +20,7 @@ var (
 )
 
 // per-store, per-version write choices
-var rmChoiceNames = []string{"-", "k1=a", "k1=b", "del k1", "k2=a", "k1=a;del k2"}
+var rmChoiceNames = []string{"-", "k1=a", "k1=b", "del k1", "k2=a", "k1=a;del k2", "k2=(empty)"}
 
 func rmApplyChoice(st stypes.KVStore, m kvMap, c int) {
 	set := func(k, v []byte) {
@@ -47,6 +47,8 @@ func rmApplyChoice(st stypes.KVStore, m kvMap, c int) {
 	case 5:
 		set(rmK1, []byte("a"))
 		del(rmK2)
+	case 6:
+		set(rmK2, []byte{})
 	}
 }
 
